@@ -1,7 +1,9 @@
 (** C10 - cell iterators visit every cell once in row-major order. *)
 From Coq Require Import Sorted.
 From TD Require Import Base.Prelude Model.Iter Model.Flatten Model.View Model.IterRun Spec.Ideal
-  Proofs.RowsSim Proofs.FlatSim Proofs.IterHistory Proofs.ViewGeom Proofs.CellsGeom.
+  Proofs.RowsSim Proofs.FlatSim Proofs.IterHistory Proofs.ViewGeom Proofs.CellsGeom
+  Model.BigIter Model.BigFlat Model.BigIterRun Proofs.BigFlatRefine.
+From TD Require Spec.BigIterSpec Proofs.BigIterStep.
 
 (** cells() / cells_mut() / the IntoIterator forms of any well-formed receiver (owned array,
     view, mutable view, any window and stride, empty) start as the ideal sequence of all its
@@ -53,6 +55,51 @@ Theorem C10_terminal :
   forall s l t, flat_sim s l -> iterm_step (SCells s) t = Ok (ideal_term (QCells l) t).
 Proof. intros s l t H. apply (term_sim (SCells s) (QCells l) t H). exact I. Qed.
 Print Assumptions C10_terminal.
+
+(** the same code paths over binary numbers (Model/BigFlat.v; family 10 runs them on
+    zero-sized elements, where 2^63 cells cost nothing) compute exactly what the model above
+    computes - next / next_back (given that the row cursor hands out non-empty rows, which
+    every simulated state guarantees), nth / nth_back for every n : N, len *)
+Theorem C10_binary_model_is_the_model :
+  (forall s k, yields_nonempty (bfiter s) ->
+     rmap flat_res (bflat_next s) = flat_next_loop rows_ops (S (S k)) (flat_of s)) /\
+  (forall s k, yields_nonempty (bfiter s) ->
+     rmap flat_res (bflat_next_back s) = flat_next_back_loop rows_ops (S (S k)) (flat_of s)) /\
+  (forall dbg s n, rmap flat_res (bflat_nth dbg s n) = flat_nth rows_ops dbg (flat_of s) n) /\
+  (forall dbg s n, rmap flat_res (bflat_nth_back dbg s n) = flat_nth_back rows_ops dbg (flat_of s) n) /\
+  (forall s, N.to_nat (bflat_len s) = flat_len rows_ops (flat_of s)).
+Proof.
+  repeat split; [exact flat_next_ref|exact flat_next_back_ref|exact flat_nth_ref|exact flat_nth_back_ref|exact flat_len_ref].
+Qed.
+Print Assumptions C10_binary_model_is_the_model.
+
+(** cells() / cells_mut() of a well-formed receiver of ANY size, then ANY finite history of
+    next / next_back / nth(n) / nth_back(n) / len, every n : N, with and without debug
+    assertions: the model never fails and prints what the ideal sequence of
+    num_cols * num_rows cells prints, stated as two counters (the oracle family 10 evaluates) *)
+Theorem C10_any_size_any_history :
+  forall dbg (v : bview) cs, wf_view (view_of_b v) -> Forall (fun c => is_index c = false) cs ->
+  exists it o s', bv_rows v = Ok it /\ bcalls dbg (BCells (bflat_new it)) cs = Ok (o, s') /\
+    o = fst (BigIterSpec.ideal_calls (bvcols v * bvrows v) [] true (0%N, 0%N) cs).
+Proof. exact BigIterStep.big_cells_end_to_end. Qed.
+Print Assumptions C10_any_size_any_history.
+
+(** non-vacuity at sizes the unary model cannot write down: cells() of a 2^32 x 2^31 array:
+    nth(2^63 - 2) lands on the last cell but one, then one cell is left *)
+Example C10_example_huge :
+  let v := bview_of_owned 4294967296 2147483648 9223372036854775808 in
+  wf_view (view_of_b v) /\
+  (it <- bv_rows v ;;
+   r <- bcalls true (BCells (bflat_new it)) [ILen; INth 9223372036854775806; ILen; INext; INext] ;;
+   Ok (fst r))
+  = Ok [9223372036854775808; 1; 1; 1; 0]%N.
+Proof.
+  split; [|vm_compute; reflexivity].
+  unfold wf_view, view_of_b, bview_of_owned, sl_of, W.
+  cbn [vw vrows vcols vstride len off bvw bvrows bvcols bvstride boff blen].
+  split; [lia|].
+  replace (N.to_nat 2147483648) with (S (N.to_nat 2147483647)) by lia. lia.
+Qed.
 
 (** non-vacuity: a 2x3 window of a 4-wide parent; a front row partly consumed, then a
     row-crossing nth, nth_back(usize::MAX) *)
